@@ -20,6 +20,9 @@ var c13Scripts = map[string][]string{
 	"hangul":   {"값을 반환합니다", "한글 주석", "변수 설명"},
 	"astral":   {"emoji 😀 🚀 doc", "math 𝔘𝔫𝔦 text", "😀"},
 	"mixed":    {"mixed é я 中 한 😀 end", "a é b я c 中", "ß Ω 文 😀"},
+	// characters that mean something to a formatter, a template, a regular expression or a markup renderer
+	"punct": {"50% of the budget, 75%, 100%", "uses the %s and %d placeholders %v %", "100%% sure %5.2f %x", "literal \\n and \\t and \\ backslashes", "<b>tag</b> &amp; *star* _under_ `tick`",
+		"$1 {0} #{x} ${y} ~tilde~ ^caret", "[link](url) | pipe || !bang?", "quote \" and ' and (paren] {brace", "a.*b+c? [a-z] \\d{2,}"},
 }
 
 type c13Decl struct {
@@ -46,7 +49,7 @@ type c13Decl struct {
 func c13GenFile(r *Rng, idx int) (string, []c13Decl) {
 	var lines []string
 	var decls []c13Decl
-	scripts := []string{"ascii", "latin1", "cyrillic", "greek", "cjk", "hangul", "astral", "mixed"}
+	scripts := []string{"ascii", "latin1", "cyrillic", "greek", "cjk", "hangul", "astral", "mixed", "punct"}
 	markers := []string{"-- ", "--- ", "-- * ", "--", "--  "}
 	places := []string{"trailing", "block1", "block2", "block3", "both", "none", "detached"}
 	kinds := []string{"local-number", "local-string", "local-table", "global", "global-function", "local-function", "member-dot", "member-colon",
